@@ -7,6 +7,8 @@ import (
 	"regexp/syntax"
 	"strings"
 
+	"golang.org/x/tools/go/ssa"
+
 	"pdfverif/internal/core"
 )
 
@@ -360,6 +362,63 @@ func runC20(c *core.Ctx) {
 		o.Require(countCaps(re) == 3, "expected capture groups for marker, object number and generation")
 		o.Require(strings.Contains(bs, "([0-9]+)"), "object/generation numbers are not captured as digit runs")
 	})
+	c.Check("C20-R2", "pdf.(*scanner).Find/eof", "the marker search reports end of input only when a refill brought no new bytes (the fill level sampled before and after the refill is equal): every byte that arrives is searched before EOF is reported, also a short tail behind the overlap region", func(o *core.Ob) {
+		fn := c.Prog.Func("pdf", "(*scanner).Find")
+		g := fn.Graph()
+		info := fn.Info()
+		refills := callVerticesSuffix(g, ".refill")
+		if len(refills) != 1 {
+			core.Undecided("expected one refill call in Find, found %d", len(refills))
+		}
+		rf := refills[0].V
+		isUsedSample := func(obj types.Object) (*core.V, bool) {
+			defs := defVertices(g, obj)
+			if len(defs) != 1 {
+				return nil, false
+			}
+			r, ok := rhsFor(info, defs[0], obj)
+			if !ok || r == nil {
+				return nil, false
+			}
+			sel, ok := ast.Unparen(r).(*ast.SelectorExpr)
+			return defs[0], ok && sel.Sel.Name == "used"
+		}
+		n := 0
+		for _, r := range g.Returns() {
+			rs := r.AST.(*ast.ReturnStmt)
+			if len(rs.Results) != 3 {
+				continue
+			}
+			if sel, ok := ast.Unparen(rs.Results[2]).(*ast.SelectorExpr); !ok || sel.Sel.Name != "EOF" {
+				continue
+			}
+			n++
+			o.Count(1)
+			o.At(fn.Site(rs, "reports end of input"))
+			ok := g.GuardedBy(r, func(a core.Atom) bool {
+				cmp, isCmp := a.AsCmp()
+				if !isCmp || cmp.Op != token.EQL {
+					return false
+				}
+				lo, ro := core.ObjOf(info, cmp.L), core.ObjOf(info, cmp.R)
+				if lo == nil || ro == nil {
+					return false
+				}
+				ld, ok1 := isUsedSample(lo)
+				rd, ok2 := isUsedSample(ro)
+				if !ok1 || !ok2 {
+					return false
+				}
+				before := func(d *core.V) bool { return g.Dominates(d, rf) && d != rf }
+				after := func(d *core.V) bool { return g.Dominates(rf, d) && d != rf }
+				return (before(ld) && after(rd)) || (before(rd) && after(ld))
+			})
+			if !ok {
+				o.FailAt(fn.Site(rs, ""), "%s: end of input is reported without the test that the refill added nothing: bytes that arrived with the last refill may never be searched", c.Prog.Pos(rs.Pos()))
+			}
+		}
+		o.Require(n >= 1, "Find never reports end of input")
+	})
 	c.Check("C20-R5", "pdf.(*FileInfo).makeSafeGetInt", "resolving an indirect /Length during the scan is bounded (visited-set plus a cap) and reads the length object in scalar-only mode", func(o *core.Ob) {
 		fn := c.Prog.Func("pdf", "(*FileInfo).makeSafeGetInt")
 		src := c.Prog.Src(fn.Decl.Body)
@@ -368,6 +427,60 @@ func runC20(c *core.Ctx) {
 		o.Require(strings.Contains(src, "seen[ref]=true"), "the visited-set is not updated")
 		o.Require(strings.Contains(src, "fi.doRead(fi.findObject(ref),getInt,true)"), "the length object is not read in scalar-only mode with the same bounded resolver")
 		o.Require(strings.Contains(src, "seen:=make(map[Reference]bool)"), "the visited-set is not created per resolver")
+	})
+	c.Check("C20-R5", "pdf.(*FileInfo).makeSafeGetInt/fresh", "every call builds a new resolver: the function stores nothing in the FileInfo and returns a closure created in this call (a cached resolver keeps its visited-set, so the second read of a stream with an indirect /Length fails as 'circular' and is recovered with a trimmed extent)", func(o *core.Ob) {
+		fn := c.Prog.Func("pdf", "(*FileInfo).makeSafeGetInt")
+		info := fn.Info()
+		ma := core.NewMutAnalysis(c.Prog)
+		sf := ma.S.FuncValue(fn.Obj)
+		if sf == nil || len(sf.Params) == 0 {
+			core.Undecided("no SSA function for %s", fn.Key)
+		}
+		o.At(fn.Site(fn.Decl, "resolver factory"))
+		o.Count(1)
+		for _, w := range ma.Mutations(sf, []ssa.Value{sf.Params[0]}, nil) {
+			if w.Fn != sf.String() {
+				continue // stores made by the resolver when it runs are not the factory's
+			}
+			o.Fail("%s: %s in the resolver factory: resolver state is kept in the FileInfo and shared between object reads", c.Prog.Pos(w.Pos), w.What)
+		}
+		recv := info.Defs[fn.Decl.Recv.List[0].Names[0]]
+		g := fn.Graph()
+		for _, r := range g.Returns() {
+			rs := r.AST.(*ast.ReturnStmt)
+			if len(rs.Results) != 1 {
+				continue
+			}
+			o.Count(1)
+			e := ast.Unparen(rs.Results[0])
+			if _, isLit := e.(*ast.FuncLit); isLit {
+				continue
+			}
+			obj := core.ObjOf(info, e)
+			okLocal := obj != nil && obj != recv
+			if sel, isSel := e.(*ast.SelectorExpr); isSel {
+				_ = sel
+				okLocal = false
+			}
+			if okLocal {
+				for _, d := range core.AssignsTo(info, fn.Decl, obj) {
+					switch s := d.(type) {
+					case *ast.AssignStmt:
+						for i, l := range s.Lhs {
+							if core.ObjOf(info, l) == obj && i < len(s.Rhs) {
+								if _, isLit := ast.Unparen(s.Rhs[i]).(*ast.FuncLit); !isLit {
+									okLocal = false
+								}
+							}
+						}
+					case *ast.ValueSpec:
+					}
+				}
+			}
+			if !okLocal {
+				o.FailAt(fn.Site(rs, ""), "%s: the resolver returned (%s) is not a closure created by this call", c.Prog.Pos(rs.Pos()), c.Prog.Src(e))
+			}
+		}
 	})
 }
 
